@@ -173,4 +173,50 @@ theorem runBatch_noise (O : Oracles) (qy : Query) (joined : List FileLine) (file
   | panic s => exact SameOut.refl _
   | oracleMissing s => exact SameOut.refl _
 
+/-! ### files without lines -/
+
+/-- the files that hold at least one line -/
+def dropEmpty (files : List (List FileLine)) : List (List FileLine) := files.filter (fun f => !f.isEmpty)
+
+theorem runFiles_nil_file (O : Oracles) (qy : Query) (idx : JoinIndex) (w : Bool) (stopAt : Option Nat)
+    (rest : List (List FileLine)) (ls : LoopState) :
+    runFiles O qy idx w stopAt ([] :: rest) ls = runFiles O qy idx w stopAt rest ls := by
+  simp only [runFiles, runFile]
+  by_cases hc : (ls.stop || reachedLimit qy ls.es) = true
+  · simp only [hc, if_true]
+    cases rest with
+    | nil => rfl
+    | cons f r => simp only [runFiles, hc, if_true]
+  · simp only [hc, Bool.false_eq_true, if_false]
+    have hs : ls.stop = false := by
+      cases h : ls.stop with
+      | false => rfl
+      | true => simp [h] at hc
+    simp [hs]
+
+/-- files without lines (also: files that consist of noise only, once denoised) are invisible -/
+theorem runFiles_dropEmpty (O : Oracles) (qy : Query) (idx : JoinIndex) (w : Bool) (stopAt : Option Nat)
+    (files : List (List FileLine)) (ls : LoopState) :
+    runFiles O qy idx w stopAt (dropEmpty files) ls = runFiles O qy idx w stopAt files ls := by
+  induction files generalizing ls with
+  | nil => rfl
+  | cons f rest ih =>
+    cases f with
+    | nil =>
+      rw [runFiles_nil_file]
+      exact ih ls
+    | cons x xs =>
+      have : dropEmpty ((x :: xs) :: rest) = (x :: xs) :: dropEmpty rest := rfl
+      rw [this]
+      simp only [runFiles, ih]
+
+theorem runBatch_dropEmpty (O : Oracles) (qy : Query) (joined : List FileLine) (files : List (List FileLine)) :
+    runBatch O qy joined (dropEmpty files) none = runBatch O qy joined files none := by
+  rw [runBatch_eq, runBatch_eq]
+  cases joinIndexOf qy joined with
+  | ok idx => simp only [batchWithIndex, runFiles_dropEmpty]
+  | error k => rfl
+  | panic s => rfl
+  | oracleMissing s => rfl
+
 end Sqlgrep
